@@ -29,6 +29,7 @@ type TermCtx struct {
 	deps  map[string][]string // symbol -> symbols its declaration text mentions
 	// datatype / sort declarations that must precede everything
 	sortDecls []string
+	condDecls [][2]string // (symbol, axiom text): emitted only when the symbol occurs in the query
 }
 
 func NewTermCtx() *TermCtx {
@@ -122,10 +123,7 @@ func (t *Term) IsInt() (*big.Int, bool) {
 	return nil, false
 }
 
-var (
-	True  = TC.intern(&Term{Op: "bool", Name: "true", Sort: "Bool"})
-	False = TC.intern(&Term{Op: "bool", Name: "false", Sort: "Bool"})
-)
+var True, False *Term
 
 func BoolLit(b bool) *Term {
 	if b {
@@ -135,6 +133,9 @@ func BoolLit(b bool) *Term {
 }
 
 func StrLit(s string) *Term {
+	if StrSort != "String" {
+		return ufStrLit(s)
+	}
 	return TC.intern(&Term{Op: "str", Name: s, Sort: "String"})
 }
 
@@ -164,6 +165,10 @@ func Not(a *Term) *Term {
 		return True
 	case a.Op == "app" && a.Name == "not":
 		return a.Args[0]
+	case a.Op == "forall":
+		return Exists(a.Binds, Not(a.Args[0]))
+	case a.Op == "exists":
+		return Forall(a.Binds, Not(a.Args[0]))
 	}
 	return App("not", "Bool", a)
 }
@@ -277,14 +282,30 @@ func Ite(c, a, b *Term) *Term {
 			return Not(c)
 		}
 	}
-	// ite(c, x, ite(c, y, z)) = ite(c,x,z)
-	if b.Op == "app" && b.Name == "ite" && b.Args[0] == c {
-		return Ite(c, a, b.Args[2])
-	}
-	if a.Op == "app" && a.Name == "ite" && a.Args[0] == c {
-		return Ite(c, a.Args[1], b)
+	// simplify the branches under the knowledge of c (through nested ite nodes only)
+	a2, b2 := restrictIte(a, c, true, 0), restrictIte(b, c, false, 0)
+	if a2 != a || b2 != b {
+		return Ite(c, a2, b2)
 	}
 	return App("ite", a.Sort, c, a, b)
+}
+
+// restrictIte removes tests of condition c (known to be val) from a tree of ite nodes.
+func restrictIte(t, c *Term, val bool, depth int) *Term {
+	if t.Op != "app" || t.Name != "ite" || depth > 12 {
+		return t
+	}
+	if t.Args[0] == c {
+		if val {
+			return restrictIte(t.Args[1], c, val, depth+1)
+		}
+		return restrictIte(t.Args[2], c, val, depth+1)
+	}
+	x, y := restrictIte(t.Args[1], c, val, depth+1), restrictIte(t.Args[2], c, val, depth+1)
+	if x == t.Args[1] && y == t.Args[2] {
+		return t
+	}
+	return Ite(t.Args[0], x, y)
 }
 
 func isCtorApp(t *Term) bool {
@@ -351,56 +372,138 @@ func Eq(a, b *Term) *Term {
 
 func Neq(a, b *Term) *Term { return Not(Eq(a, b)) }
 
-func arith(op string, a, b *Term) *Term {
-	x, ok1 := a.IsInt()
-	y, ok2 := b.IsInt()
-	if ok1 && ok2 {
-		r := new(big.Int)
-		switch op {
-		case "+":
-			return BigLit(r.Add(x, y))
-		case "-":
-			return BigLit(r.Sub(x, y))
-		case "*":
-			return BigLit(r.Mul(x, y))
-		}
+// Linear normal form: every Int term built by + - and multiplication by a constant is kept as a
+// canonical sum  (+ c1*a1 ... cn*an k)  with the atoms ordered by id, so that syntactically
+// different spellings of the same linear expression are the same term.
+type linForm struct {
+	coef map[int]*big.Int
+	atom map[int]*Term
+	k    *big.Int
+}
+
+func newLin() *linForm {
+	return &linForm{coef: map[int]*big.Int{}, atom: map[int]*Term{}, k: new(big.Int)}
+}
+
+func (l *linForm) addTerm(t *Term, c *big.Int) {
+	if c.Sign() == 0 {
+		return
 	}
-	switch op {
-	case "+":
-		if ok1 && x.Sign() == 0 {
-			return b
-		}
-		if ok2 && y.Sign() == 0 {
-			return a
-		}
-		// (x + c1) + c2
-		if ok2 && a.Op == "app" && a.Name == "+" && len(a.Args) == 2 {
-			if c1, ok := a.Args[1].IsInt(); ok {
-				return arith("+", a.Args[0], BigLit(new(big.Int).Add(c1, y)))
+	if v, ok := t.IsInt(); ok {
+		l.k.Add(l.k, new(big.Int).Mul(v, c))
+		return
+	}
+	if t.Op == "app" && t.Sort == "Int" {
+		switch t.Name {
+		case "+":
+			for _, a := range t.Args {
+				l.addTerm(a, c)
+			}
+			return
+		case "-":
+			if len(t.Args) == 2 {
+				l.addTerm(t.Args[0], c)
+				l.addTerm(t.Args[1], new(big.Int).Neg(c))
+				return
+			}
+			if len(t.Args) == 1 {
+				l.addTerm(t.Args[0], new(big.Int).Neg(c))
+				return
+			}
+		case "*":
+			if len(t.Args) == 2 {
+				if v, ok := t.Args[0].IsInt(); ok {
+					l.addTerm(t.Args[1], new(big.Int).Mul(c, v))
+					return
+				}
+				if v, ok := t.Args[1].IsInt(); ok {
+					l.addTerm(t.Args[0], new(big.Int).Mul(c, v))
+					return
+				}
 			}
 		}
-	case "-":
-		if ok2 && y.Sign() == 0 {
-			return a
+	}
+	if o, ok := l.coef[t.id]; ok {
+		o.Add(o, c)
+		if o.Sign() == 0 {
+			delete(l.coef, t.id)
+			delete(l.atom, t.id)
 		}
-		if a == b {
-			return IntLit(0)
+		return
+	}
+	l.coef[t.id] = new(big.Int).Set(c)
+	l.atom[t.id] = t
+}
+
+func (l *linForm) build() *Term {
+	ids := make([]int, 0, len(l.coef))
+	for id := range l.coef {
+		ids = append(ids, id)
+	}
+	sort.Ints(ids)
+	var pos, neg []*Term
+	one := big.NewInt(1)
+	for _, id := range ids {
+		c, a := l.coef[id], l.atom[id]
+		abs := new(big.Int).Abs(c)
+		t := a
+		if abs.Cmp(one) != 0 {
+			t = App("*", "Int", BigLit(abs), a)
 		}
-		if ok2 {
-			return arith("+", a, BigLit(new(big.Int).Neg(y)))
-		}
-	case "*":
-		if ok1 && x.Sign() == 0 || ok2 && y.Sign() == 0 {
-			return IntLit(0)
-		}
-		if ok1 && x.Cmp(big.NewInt(1)) == 0 {
-			return b
-		}
-		if ok2 && y.Cmp(big.NewInt(1)) == 0 {
-			return a
+		if c.Sign() > 0 {
+			pos = append(pos, t)
+		} else {
+			neg = append(neg, t)
 		}
 	}
-	return App(op, "Int", a, b)
+	if l.k.Sign() > 0 {
+		pos = append(pos, BigLit(l.k))
+	} else if l.k.Sign() < 0 {
+		neg = append(neg, BigLit(new(big.Int).Neg(l.k)))
+	}
+	sum := func(ts []*Term) *Term {
+		if len(ts) == 1 {
+			return ts[0]
+		}
+		return App("+", "Int", ts...)
+	}
+	switch {
+	case len(pos) == 0 && len(neg) == 0:
+		return IntLit(0)
+	case len(neg) == 0:
+		return sum(pos)
+	case len(pos) == 0:
+		return App("-", "Int", IntLit(0), sum(neg))
+	}
+	return App("-", "Int", sum(pos), sum(neg))
+}
+
+func arith(op string, a, b *Term) *Term {
+	if op == "*" {
+		x, ok1 := a.IsInt()
+		y, ok2 := b.IsInt()
+		if ok1 && ok2 {
+			return BigLit(new(big.Int).Mul(x, y))
+		}
+		if ok1 || ok2 {
+			l := newLin()
+			if ok1 {
+				l.addTerm(b, x)
+			} else {
+				l.addTerm(a, y)
+			}
+			return l.build()
+		}
+		return App("*", "Int", a, b)
+	}
+	l := newLin()
+	l.addTerm(a, big.NewInt(1))
+	if op == "+" {
+		l.addTerm(b, big.NewInt(1))
+	} else {
+		l.addTerm(b, big.NewInt(-1))
+	}
+	return l.build()
 }
 
 func Add(a, b *Term) *Term { return arith("+", a, b) }
@@ -531,6 +634,9 @@ func Select(a, i *Term) *Term {
 		x, y := Select(a.Args[1], i), Select(a.Args[2], i)
 		return Ite(a.Args[0], x, y)
 	}
+	if i.Op == "app" && i.Name == "ite" && i.Sort == "Loc" {
+		return Ite(i.Args[0], Select(a, i.Args[1]), Select(a, i.Args[2]))
+	}
 	if a.Op == "app" && a.Name == "constarr" {
 		return a.Args[0]
 	}
@@ -538,6 +644,12 @@ func Select(a, i *Term) *Term {
 }
 
 func Store(a, i, v *Term) *Term {
+	if i.Op == "app" && i.Name == "ite" && i.Sort == "Loc" {
+		return Ite(i.Args[0], Store(a, i.Args[1], v), Store(a, i.Args[2], v))
+	}
+	if a.Op == "app" && a.Name == "ite" && a.Args[1].Op == "app" && a.Args[2].Op == "app" && (a.Args[1].Name == "store" || a.Args[2].Name == "store") && a.Args[1].Name != "ite" && a.Args[2].Name != "ite" {
+		return Ite(a.Args[0], Store(a.Args[1], i, v), Store(a.Args[2], i, v))
+	}
 	if a.Op == "app" && a.Name == "store" && a.Args[1] == i {
 		a = a.Args[0]
 	}
@@ -646,7 +758,24 @@ func Subst(t *Term, m map[*Term]*Term) *Term {
 	return rec(t)
 }
 
+// selectors of datatype constructors: name -> (constructor, field index)
+type selInfo struct {
+	ctor string
+	idx  int
+}
+
+var selectorOf = map[string]selInfo{}
+
 func rebuild(t *Term, args []*Term) *Term {
+	if si, ok := selectorOf[t.Name]; ok && len(args) == 1 {
+		a := args[0]
+		if a.Op == "app" && a.Name == si.ctor {
+			return a.Args[si.idx]
+		}
+		if a.Op == "app" && a.Name == "ite" {
+			return Ite(a.Args[0], rebuild(t, []*Term{a.Args[1]}), rebuild(t, []*Term{a.Args[2]}))
+		}
+	}
 	switch t.Name {
 	case "not":
 		return Not(args[0])
@@ -661,8 +790,21 @@ func rebuild(t *Term, args []*Term) *Term {
 	case "=":
 		return Eq(args[0], args[1])
 	case "+", "-", "*":
-		if len(args) == 2 {
-			return arith(t.Name, args[0], args[1])
+		if t.Sort == "Int" && len(args) >= 1 {
+			if t.Name == "*" && len(args) == 2 {
+				return arith("*", args[0], args[1])
+			}
+			if t.Name != "*" {
+				l := newLin()
+				for i, a := range args {
+					c := big.NewInt(1)
+					if t.Name == "-" && (i > 0 || len(args) == 1) {
+						c = big.NewInt(-1)
+					}
+					l.addTerm(a, c)
+				}
+				return l.build()
+			}
 		}
 	case "<", "<=":
 		return cmp(t.Name, args[0], args[1])
@@ -797,6 +939,7 @@ func Script(asserts []*Term, getValues []*Term, extraDefs []string) string {
 		sb.WriteString(d)
 		sb.WriteByte('\n')
 	}
+	condAt := sb.Len()
 	names := map[int]string{}
 	for _, t := range order {
 		if t.open || len(t.Args) == 0 || ref[t.id] < 2 {
@@ -812,6 +955,21 @@ func Script(asserts []*Term, getValues []*Term, extraDefs []string) string {
 		var b strings.Builder
 		a.write(&b, names)
 		fmt.Fprintf(&sb, "(assert %s)\n", b.String())
+	}
+	if len(TC.condDecls) > 0 {
+		body := sb.String()[condAt:]
+		var cond strings.Builder
+		for _, cd := range TC.condDecls {
+			if strings.Contains(body, "("+cd[0]+" ") {
+				cond.WriteString(cd[1])
+				cond.WriteByte('\n')
+			}
+		}
+		full := sb.String()
+		sb.Reset()
+		sb.WriteString(full[:condAt])
+		sb.WriteString(cond.String())
+		sb.WriteString(full[condAt:])
 	}
 	sb.WriteString("(check-sat)\n")
 	if len(getValues) > 0 {
